@@ -412,11 +412,109 @@ pub struct ValueCfg {
     pub conformance: bool,
     /// generate out-of-root values/sizes for extensible constraints
     pub out_of_root: bool,
+    /// exclusion for the open known finding "open-type-over-16k": keep everything that is encoded
+    /// inside an open type (extension additions / extension alternatives) small
+    pub cap_open_types: bool,
+    /// set while generating inside an open type under `cap_open_types`: hard limit for sizes
+    pub hard_limit: Option<usize>,
 }
 
 impl Default for ValueCfg {
     fn default() -> Self {
-        ValueCfg { big_weight: 2, max_big: 70000, max_big_elems: 70000, conformance: true, out_of_root: true }
+        ValueCfg { big_weight: 2, max_big: 70000, max_big_elems: 70000, conformance: true, out_of_root: true, cap_open_types: false, hard_limit: None }
+    }
+}
+
+impl ValueCfg {
+    pub fn inside_open_type(self) -> ValueCfg {
+        if self.cap_open_types {
+            ValueCfg { hard_limit: Some(self.hard_limit.unwrap_or(100).min(100)), big_weight: 0, ..self }
+        } else {
+            self
+        }
+    }
+}
+
+/// generous upper estimate of the octets a value occupies in any PER encoding
+pub fn approx_octets(v: &Value) -> usize {
+    match v {
+        Value::Bool(_) | Value::Null | Value::Enum(_) => 2,
+        Value::Int(_) => 10,
+        Value::Bits(b) => b.len() / 8 + 4,
+        Value::Bytes(b) => b.len() + 4,
+        Value::Str(s) => s.len() + 4,
+        Value::Seq(slots) => 3 + slots.iter().flatten().map(approx_octets).sum::<usize>(),
+        Value::List(l) => 4 + l.iter().map(approx_octets).sum::<usize>(),
+        Value::Choice(_, x) => 3 + approx_octets(x),
+    }
+}
+
+/// Is the value inside a region that an *open known finding* excludes from generation?
+/// (`max_big_elems` < 16384: lists / known-multiplier strings that would need fragmentation;
+///  `cap_open_types`: open types of >= 16384 octets; 12000 is used so that the estimate is safe.)
+pub fn excluded_by_findings(m: &Module, ty: &Type, v: &Value, cfg: ValueCfg) -> bool {
+    match (ty, v) {
+        (Type::Ref(n), v) => {
+            let d = m.def(n).expect("reference");
+            let inner = if d.ty.is_own_rust_type() {
+                v
+            } else {
+                match v {
+                    Value::Seq(s) if s.len() == 1 && s[0].is_some() => s[0].as_ref().unwrap(),
+                    _ => return false,
+                }
+            };
+            excluded_by_findings(m, &d.ty, inner, cfg)
+        }
+        (Type::Str { cs, .. }, Value::Str(s)) => *cs != Charset::Utf8 && s.chars().count() > cfg.max_big_elems,
+        (Type::SequenceOf { elem, .. }, Value::List(l)) | (Type::SetOf { elem, .. }, Value::List(l)) => l.len() > cfg.max_big_elems || l.iter().take(50).any(|x| excluded_by_findings(m, elem, x, cfg)),
+        (Type::Sequence(f), Value::Seq(slots)) | (Type::Set(f), Value::Seq(slots)) if slots.len() == f.comps.len() => {
+            let n_root = f.root.unwrap_or(f.comps.len());
+            f.comps.iter().zip(slots).enumerate().any(|(i, (c, sl))| match sl {
+                None => false,
+                Some(x) => (cfg.cap_open_types && i >= n_root && approx_octets(x) >= 12000) || excluded_by_findings(m, &c.ty, x, cfg),
+            })
+        }
+        (Type::Choice { alts, root }, Value::Choice(i, x)) if *i < alts.len() => {
+            let n_root = root.unwrap_or(alts.len());
+            (cfg.cap_open_types && *i >= n_root && approx_octets(x) >= 12000) || excluded_by_findings(m, &alts[*i].ty, x, cfg)
+        }
+        _ => false,
+    }
+}
+
+pub fn def_excluded_by_findings(m: &Module, def: &Def, v: &Value, cfg: ValueCfg) -> bool {
+    if cfg.max_big_elems >= 16384 && !cfg.cap_open_types {
+        return false;
+    }
+    let inner = if def.ty.is_own_rust_type() {
+        v
+    } else {
+        match v {
+            Value::Seq(s) if s.len() == 1 && s[0].is_some() => s[0].as_ref().unwrap(),
+            _ => return false,
+        }
+    };
+    excluded_by_findings(m, &def.ty, inner, cfg)
+}
+
+/// can a value of `ty` be generated within `cfg.hard_limit`?
+pub fn fits_limit(m: &Module, ty: &Type, cfg: ValueCfg) -> bool {
+    let limit = match cfg.hard_limit {
+        None => return true,
+        Some(l) => l,
+    };
+    let size_ok = |s: &Option<Size>, lim: usize| s.as_ref().map(|s| (s.lb() as usize) <= lim).unwrap_or(true);
+    match ty {
+        Type::Ref(n) => fits_limit(m, &m.def(n).expect("reference").ty, cfg),
+        Type::BitString { size, .. } | Type::OctetString { size } | Type::Str { size, .. } => size_ok(size, limit),
+        Type::SequenceOf { elem, size } | Type::SetOf { elem, size } => size_ok(size, 8) && fits_limit(m, elem, cfg),
+        Type::Sequence(f) | Type::Set(f) => {
+            let n_root = f.root.unwrap_or(f.comps.len());
+            f.comps.iter().take(n_root).all(|c| c.presence != Presence::Mandatory || fits_limit(m, &c.ty, cfg))
+        }
+        Type::Choice { alts, .. } => alts.iter().any(|a| fits_limit(m, &a.ty, cfg)),
+        _ => true,
     }
 }
 
@@ -454,8 +552,9 @@ fn size_values(size: &Option<Size>, cfg: ValueCfg, cheap: bool, max_big: usize) 
         big.extend([lb, lb + 1]);
     }
     let in_root = move |n: &usize| *n >= lb && *n <= hi;
+    let limit = cfg.hard_limit.unwrap_or(usize::MAX);
     let keep = |v: Vec<usize>, max: usize| -> Vec<usize> {
-        let mut v: Vec<usize> = v.into_iter().filter(|n| *n <= max && (ext && cfg.out_of_root || in_root(n))).collect();
+        let mut v: Vec<usize> = v.into_iter().filter(|n| *n <= limit && *n <= max && (ext && cfg.out_of_root || in_root(n))).collect();
         v.sort();
         v.dedup();
         v
@@ -480,7 +579,7 @@ fn size_values(size: &Option<Size>, cfg: ValueCfg, cheap: bool, max_big: usize) 
     }
     if arms.is_empty() {
         // the only admitted sizes are expensive ones (e.g. SIZE(100000) of a structured element):
-        // the smallest admitted size
+        // the smallest admitted size (callers keep such types out of capped open types)
         return Just(lb).boxed();
     }
     proptest::strategy::Union::new_weighted(arms).boxed()
@@ -655,7 +754,8 @@ pub fn value_strategy(m: &Arc<Module>, ty: &Type, cfg: ValueCfg) -> BoxedStrateg
         Type::SequenceOf { elem, size } | Type::SetOf { elem, size } => {
             let cheap = is_cheap_elem(m, elem);
             let es = value_strategy(m, elem, ValueCfg { big_weight: 0, ..cfg });
-            size_values(size, cfg, cheap, cfg.max_big_elems)
+            let lcfg = ValueCfg { hard_limit: cfg.hard_limit.map(|l| l.min(8)), ..cfg };
+            size_values(size, lcfg, cheap, cfg.max_big_elems)
                 .prop_flat_map(move |n| {
                     if n <= 40 {
                         proptest::collection::vec(es.clone(), n).prop_map(Value::List).boxed()
@@ -666,8 +766,20 @@ pub fn value_strategy(m: &Arc<Module>, ty: &Type, cfg: ValueCfg) -> BoxedStrateg
                 })
                 .boxed()
         }
-        Type::Choice { alts, .. } => {
-            let arms: Vec<BoxedStrategy<Value>> = alts.iter().enumerate().map(|(i, a)| value_strategy(m, &a.ty, cfg).prop_map(move |v| Value::Choice(i, Box::new(v))).boxed()).collect();
+        Type::Choice { alts, root } => {
+            let n_root = root.unwrap_or(alts.len());
+            let mut arms: Vec<BoxedStrategy<Value>> = Vec::new();
+            for (i, a) in alts.iter().enumerate() {
+                let acfg = if i >= n_root { cfg.inside_open_type() } else { cfg };
+                if (i >= n_root || cfg.hard_limit.is_some()) && !fits_limit(m, &a.ty, acfg) {
+                    continue;
+                }
+                arms.push(value_strategy(m, &a.ty, acfg).prop_map(move |v| Value::Choice(i, Box::new(v))).boxed());
+            }
+            if arms.is_empty() {
+                // every alternative is too big for the cap: callers check fits_limit first; fall back
+                arms.push(value_strategy(m, &alts[0].ty, cfg).prop_map(|v| Value::Choice(0, Box::new(v))).boxed());
+            }
             proptest::strategy::Union::new(arms).boxed()
         }
     }
@@ -677,12 +789,26 @@ fn fields_values(m: &Arc<Module>, f: &Fields, cfg: ValueCfg) -> BoxedStrategy<Va
     let n_root = f.root.unwrap_or(f.comps.len());
     let mut slots: Vec<BoxedStrategy<Option<Value>>> = Vec::new();
     for (i, c) in f.comps.iter().enumerate() {
-        let vs = value_strategy(m, &c.ty, cfg);
+        let ccfg = if i >= n_root { cfg.inside_open_type() } else { cfg };
+        if i >= n_root && !fits_limit(m, &c.ty, ccfg) {
+            // cannot be kept small: always absent (DEFAULT: the default value)
+            slots.push(match &c.presence {
+                Presence::Default(d) => Just(Some(lit_value(m, &c.ty, &d.lit).expect("default literal fits its type"))).boxed(),
+                _ => Just(None).boxed(),
+            });
+            continue;
+        }
+        let vs = value_strategy(m, &c.ty, ccfg);
         let s: BoxedStrategy<Option<Value>> = match &c.presence {
             Presence::Default(d) => {
                 let dv = lit_value(m, &c.ty, &d.lit).expect("default literal fits its type");
-                prop_oneof![1 => Just(Some(dv)), 2 => vs.prop_map(Some)].boxed()
+                if !fits_limit(m, &c.ty, ccfg) {
+                    Just(Some(dv)).boxed()
+                } else {
+                    prop_oneof![1 => Just(Some(dv)), 2 => vs.prop_map(Some)].boxed()
+                }
             }
+            Presence::Optional if !fits_limit(m, &c.ty, ccfg) => Just(None).boxed(),
             Presence::Optional => prop_oneof![1 => Just(None), 1 => vs.prop_map(Some)].boxed(),
             Presence::Mandatory if i >= n_root => prop_oneof![1 => Just(None), 2 => vs.prop_map(Some)].boxed(),
             Presence::Mandatory => vs.prop_map(Some).boxed(),
@@ -724,7 +850,11 @@ fn value_strategy_first_add(m: &Arc<Module>, f: &Fields, cfg: ValueCfg) -> Boxed
         return Just(None).boxed();
     }
     let c = f.comps[n_root].clone();
-    let vs = value_strategy(m, &c.ty, cfg);
+    let ccfg = cfg.inside_open_type();
+    if !fits_limit(m, &c.ty, ccfg) {
+        return Just(None).boxed();
+    }
+    let vs = value_strategy(m, &c.ty, ccfg);
     match &c.presence {
         Presence::Default(d) => {
             let dv = lit_value(m, &c.ty, &d.lit).unwrap();
